@@ -480,3 +480,130 @@ def qr_iteration_arithmetic(ctx, rep, rule: str) -> None:
     first = next((n for n in fi.node.body if isinstance(n, ast.If)), None)
     ok = first is not None and " ".join(ast.unparse(first.test).split()) == "not eigenvectors_estimate.any()" and len(first.body) == 1 and isinstance(first.body[0], ast.Return) and "matrix_eigenvalue_decomposition(A)[1]" in ast.unparse(first.body[0])
     rep.ob(rule, "qr-zero-estimate-falls-back-to-eigh", ok, fi.loc(first) if first is not None else fi.loc(), "a zero estimate falls back to the eigendecomposition's eigenvectors")
+
+
+# ------------------------------------------------------------------------------------------------ coupled inverse Newton
+def newton_arithmetic(ctx, rep, rule: str) -> None:
+    """Initialisation and one iteration of the coupled inverse Newton method, as in the routine's own documentation:
+    alpha = -1/p; z = (p+1)/(2 |A + eps I|_F); X0 = z^(1/p) I; M0 = z (A + eps I); M' = (1-alpha) I + alpha M; X <- X M'; M <- M'^p M;
+    error = dist(M, I).  Matrix products are uninterpreted (non-commutative) functions."""
+    repo = ctx.repo
+    fi = repo.func("matrix_functions:_matrix_inverse_root_newton")
+    atoms = Atoms()
+    app = lambda name: (lambda sh, args, kw: Cell(Rat.app(sh.atoms, name, tuple(sh.rat(a) for a in args if not isinstance(a, str)))))  # noqa: E731
+
+    def dist(sh, args, kw):
+        return Cell(Rat.app(sh.atoms, "dist", (sh.rat(args[0]), sh.rat(args[1]))))
+
+    def decide(t, sh):
+        txt = " ".join(ast.unparse(t).split())
+        if txt in ("error <= tolerance",):
+            return True
+        return None
+
+    sh = Shadow(repo, atoms, opaque={"torch.eye": lambda sh, a, k: Cell(sh.sym("I")), "torch.linalg.norm": app("fro_norm"), "torch.dist": dist, "torch.linalg.matrix_power": app("matrix_power")}, decide=decide)
+    sh.loop_once = True
+    try:
+        out = sh.run(fi, {"A": Cell(Rat.sym(atoms, "A")), "root": Rat.sym(atoms, "p"), "epsilon": Rat.sym(atoms, "eps"), "max_iterations": Rat.sym(atoms, "max_iter"), "tolerance": Rat.sym(atoms, "tol")})
+    except Unsupported as u:
+        raise AnalysisError(f"{rule}: _matrix_inverse_root_newton outside the sub-language: {u}") from u
+    S = lambda n: Rat.sym(atoms, n)  # noqa: E731
+    one = Rat.const(atoms, 1)
+    Ar = S("A") + S("eps") * S("I")
+    z = (S("p") + 1) / (2 * Rat.app(atoms, "fro_norm", (Ar,)))
+    alpha = -one / S("p")
+    X0 = (z ** (-alpha)) * S("I")
+    M0 = z * Ar
+    Mp = alpha * M0 + (one - alpha) * S("I")
+    X1 = Rat.app(atoms, "matmul", (X0, Mp))
+    M1 = Rat.app(atoms, "matmul", (Rat.app(atoms, "matrix_power", (Mp, S("p"))), M0))
+    err = Rat.app(atoms, "dist", (M1, S("I")))
+    bad: list = []
+    ok_shape = isinstance(out, tuple) and len(out) == 5
+    if ok_shape:
+        _cmp(rep, rule, "", "", sh.rat(out[0]), X1, "X after one iteration", {}, bad)
+        _cmp(rep, rule, "", "", sh.rat(out[1]), M1, "M after one iteration", {}, bad)
+        _cmp(rep, rule, "", "", sh.rat(out[4]), err, "reported error", {}, bad)
+    else:
+        bad.append(({}, "return value", str(out)[:80], "(X, M, flag, iteration, error)"))
+    _report(rep, rule, "coupled-newton-recurrence", fi.loc(), 1, bad, "alpha = -1/p; z = (p+1)/(2|A+eps I|_F); X0 = z^(1/p) I; M0 = z (A+eps I); M' = (1-alpha) I + alpha M; X <- X M'; M <- M'^p M; error = dist(M, I)")
+    # loop condition
+    from ..guards import Interp
+
+    wl = [n for n in A.walk_no_nested(fi.node) if isinstance(n, ast.While)]
+    ok = False
+    if len(wl) == 1:
+        ok = all(bool(Interp({"error": e, "tolerance": 0.5, "iteration": i, "max_iterations": m}).ev(wl[0].test)) == (e > 0.5 and i < m) for e in (0.1, 0.5, 0.9) for i in (0, 1, 2) for m in (1, 2))
+    rep.ob(rule, "coupled-newton-loop-condition", ok, fi.loc(wl[0]) if wl else fi.loc(), "iterate while error > tolerance and iteration < max_iterations")
+
+
+# ------------------------------------------------------------------------------------------------ eigen / diagonal / scalar inverse roots
+def eigen_root_arithmetic(ctx, rep, rule: str) -> None:
+    """X = Q diag((lambda - min(lambda_min [- eps], 0) [+ eps])^(-1/root)) Q^T on both enhance_stability branches; the diagonal and
+    1-element fast paths compute (a + eps)^(-1/root) element-wise."""
+    repo = ctx.repo
+    fi = repo.func("matrix_functions:_matrix_inverse_root_eigen")
+    bad: list = []
+    n = 0
+    for enh in (False, True):
+        atoms = Atoms()
+        seen = {}
+
+        def eig(sh, args, kw, seen=seen):
+            seen["decomposed"] = sh.rat(args[0])
+            return (Cell(sh.sym("L")), Cell(sh.sym("Q")))
+
+        un = lambda name: (lambda sh, args, kw, recv=None: Cell(Rat.app(sh.atoms, name, tuple(sh.rat(a) for a in ([recv] if recv is not None else []) + list(args) if not isinstance(a, str)))))  # noqa: E731
+
+        def decide(t, sh):
+            if " ".join(ast.unparse(t).split()) == "root <= 0":
+                return False
+            return None
+
+        sh = Shadow(repo, atoms, opaque={"matrix_functions.matrix_eigenvalue_decomposition": eig, "torch.eye": lambda sh, a, k: Cell(sh.sym("I")), "torch.min": un("min"), "torch.minimum": un("minimum"), "unsqueeze": lambda sh, a, k, recv=None: recv}, decide=decide)
+        try:
+            out = sh.run(fi, {"A": Cell(Rat.sym(atoms, "A")), "root": Rat.sym(atoms, "root"), "epsilon": Rat.sym(atoms, "eps"), "retry_double_precision": True, "eigen_decomp_offload_device": "", "enhance_stability": enh})
+        except Unsupported as u:
+            raise AnalysisError(f"{rule}: _matrix_inverse_root_eigen outside the sub-language: {u}") from u
+        S = lambda x: Rat.sym(atoms, x)  # noqa: E731
+        mn = Rat.app(atoms, "min", (S("L"),))
+        zero = Rat.const(atoms, 0)
+        if enh:
+            want_dec = S("A") + S("eps") * S("I")
+            Ls = S("L") - Rat.app(atoms, "minimum", (mn - S("eps"), zero))
+        else:
+            want_dec = S("A")
+            Ls = S("L") - Rat.app(atoms, "minimum", (mn, zero)) + S("eps")
+        X = Rat.app(atoms, "matmul", (S("Q") * Rat.app(atoms, "pow", (Ls, Rat.const(atoms, -1) / S("root"))), Rat.app(atoms, "transpose", (S("Q"),))))
+        case = dict(enhance_stability=enh)
+        n += 1
+        _cmp(rep, rule, "", "", seen.get("decomposed"), want_dec, "decomposed matrix", case, bad)
+        _cmp(rep, rule, "", "", sh.rat(out[0]) if isinstance(out, tuple) else None, X, "inverse root", case, bad)
+    _report(rep, rule, "eigen-inverse-root-formula", fi.loc(), n, bad, "decompose A (or A + eps I with enhance_stability); lambda <- lambda - min(lambda_min [- eps], 0) [+ eps]; X = (Q * lambda^(-1/root)) @ Q^T")
+    # fast paths
+    for name, build in (("_matrix_inverse_root_diagonal", None),):
+        fd = repo.func(f"matrix_functions:{name}")
+        atoms = Atoms()
+        un = lambda nm: (lambda sh, args, kw, recv=None: Cell(Rat.app(sh.atoms, nm, tuple(sh.rat(a) for a in ([recv] if recv is not None else []) + list(args) if not isinstance(a, str)))))  # noqa: E731
+        sh = Shadow(repo, atoms, opaque={"torch.diag": un("diag"), "torch.diagonal": un("diagonal")}, decide=lambda t, sh: False if " ".join(ast.unparse(t).split()) == "root <= 0" else None)
+        try:
+            out = sh.run(fd, {"A": Cell(Rat.sym(atoms, "A")), "root": Rat.sym(atoms, "root"), "epsilon": Rat.sym(atoms, "eps")})
+        except Unsupported as u:
+            raise AnalysisError(f"{rule}: {name} outside the sub-language: {u}") from u
+        S = lambda x: Rat.sym(atoms, x)  # noqa: E731
+        want = Rat.app(atoms, "diag", (Rat.app(atoms, "pow", (Rat.app(atoms, "diagonal", (S("A"),)) + S("eps"), Rat.const(atoms, -1) / S("root"))),))
+        ok = isinstance(out, Cell) and out.v == want
+        rep.ob(rule, "diagonal-fast-path-formula", ok, fd.loc(), f"diag((diagonal(A) + eps)^(-1/root)); got `{out.v if isinstance(out, Cell) else out}`", sample=True)
+    mi = repo.func("matrix_functions:matrix_inverse_root")
+    first = next((x for x in mi.node.body if isinstance(x, ast.If)), None)
+    ok = False
+    if first is not None and first.body and isinstance(first.body[0], ast.Return):
+        atoms = Atoms()
+        sh = Shadow(repo, atoms)
+        try:
+            v = sh.ev(first.body[0].value, {"A": Cell(Rat.sym(atoms, "A")), "epsilon": Rat.sym(atoms, "eps"), "root": Rat.sym(atoms, "root")}, mi)
+            want = Rat.app(atoms, "pow", (Rat.sym(atoms, "A") + Rat.sym(atoms, "eps"), Rat.const(atoms, -1) / Rat.sym(atoms, "root")))
+            ok = sh.rat(v) == want
+        except Unsupported as u:
+            raise AnalysisError(f"{rule}: scalar fast path outside the sub-language: {u}") from u
+    rep.ob(rule, "scalar-fast-path-formula", ok, mi.loc(first) if first is not None else mi.loc(), "1-element input: (A + eps)^(-1/root)", sample=True)
